@@ -592,6 +592,8 @@ class ConcreteCtx:
     def __init__(self, values, choices, tol=1e-9):
         self.values = list(values)   # numbers in creation order
         self.exact = not all(is_dyadic(Fraction(v)) for v in self.values)
+        if self.exact:
+            tol = 0      # exact rational replay: comparisons are as exact as in the symbolic run
         self.choices = list(choices)
         self.vi = 0
         self.ci = 0
